@@ -45,6 +45,8 @@ func checkC05(c *Ctx, r *Report) {
 	c05R6(c, r)
 	c05R2b(c, r)
 	c05LookupOk(c, r)
+	c05ParseIntWidth(c, r, "C05.R6.parse-int-width")
+	c05MnemonicIdent(c, r, "C05.R2.mnemonic-ident")
 }
 
 // c05R5: numeric limit agreement: the TTL parser accepts exactly the range the 32-bit header field (and its printer) has.
